@@ -79,11 +79,15 @@ Definition cache_model (c : bool * list cop) : list (cout * nat) :=
                 dict(op='goc', sub=['s'], key='k', comp=[None], force=False), dict(op='get', sub=['s'], key='k'),
                 dict(op='plant', sub=[], key='k', other='k', value=None), dict(op='get', sub=[], key='k'),
                 dict(op='goc', sub=[], key='k', comp=[3], force=False)]),
+            # falsy values that are not None, with None refused
+            dict(allow_nones=False, ops=[x for v in (0, '', [], {}, False, 0.0) for x in (
+                dict(op='goc', sub=[], key=f'k{v!r}', comp=[v], force=False), dict(op='get', sub=[], key=f'k{v!r}'),
+                dict(op='goc', sub=[], key=f'k{v!r}', comp=[1], force=False))]),
         ]
 
     def gen(self, rng, tier):
         out = []
-        for _ in range(40 if tier == 'quick' else 1200):
+        for _ in range(80 if tier == 'quick' else 1200):
             keys = rng.sample(KEYS, rng.choice([1, 2, 3]))
             ops = []
             for _ in range(rng.choice([3, 6, 10, 16] if tier == 'quick' else [3, 6, 10, 16, 30])):
